@@ -533,7 +533,7 @@ def provided_overrides(chk, prog, names):
     # way are interpreted - the trait's body, or the controller's override where there is one - in both explorations
     busfns = set(i for t, i in items.items() if t not in provided) | set(TR + t[len(TR):] for t in items if t not in provided)
 
-    def explore(path, target_trait_path, mname):
+    def explore(path, target_trait_path, mname, clk_const=None):
         w = _W(prog)
         w.opaque_paths |= busfns
 
@@ -557,6 +557,8 @@ def provided_overrides(chk, prog, names):
             ty = fn.T[fn.body["locals"][i]]
             bits = ty[1] if ty[0] == "int" else 1
             args.append(tm.sym("arg%d" % (i - 1), bits))
+        if clk_const is not None:
+            args[-1] = K(clk_const, args[-1].bits)     # a count of single T-states: explored for each value used (0..8)
         genv = dict(GENV)
         genv["Self"] = self_ty
         return w.run(fn, args, genv=genv, state=st)
@@ -577,6 +579,27 @@ def provided_overrides(chk, prog, names):
             try:
                 rd = explore(tp, tp, m)
                 ro = explore(items[tp], tp, m)
+                if len(rd) != 1 and short == "wait_loop":
+                    # the provided body loops `clk` times: compared for every count the CPU core passes (T-BOUND: <= 8)
+                    rd, ro = [], []
+                    bad_n = None
+                    for n in range(0, 9):
+                        d1, o1 = explore(tp, tp, m, n), explore(items[tp], tp, m, n)
+                        if len(d1) != 1 or d1[0].outcome != "return" or any(r.outcome != "return" for r in o1):
+                            bad_n = n
+                            break
+                        want_n = trace_of(d1[0])
+                        for r in o1:
+                            chk.check(trace_of(r) == want_n or (len(trace_of(r)) == len(want_n) and all(
+                                g[0] == w_[0] and all((x is y) or (isinstance(x, T) and isinstance(y, T) and tm.equiv(x, y) is True) for x, y in zip(g[1], w_[1]))
+                                for g, w_ in zip(trace_of(r), want_n))), key,
+                                "ZXController overrides wait_loop and for %d T-states performs %s where the trait's body performs %s (every internal T-state must be its own wait_no_mreq)" % (
+                                    n, [(g[0].split("::")[-1], [tm.show(x) if isinstance(x, T) else str(x) for x in g[1]]) for g in trace_of(r)][:6],
+                                    [(g[0].split("::")[-1], [tm.show(x) if isinstance(x, T) else str(x) for x in g[1]]) for g in want_n][:6]))
+                            chk.count("bus-override-paths")
+                    if bad_n is not None:
+                        chk.undecided_(key, "wait_loop with %d T-states could not be compared" % bad_n)
+                    continue
             except Exception as e:
                 chk.undecided_(key, "could not explore: %s" % e)
                 continue
